@@ -43,6 +43,8 @@ ct_bases = z3.Function('ct_bases', Ty, so.TySeq)        # T.__bases__
 hook_recog_ok = z3.Function('hook_recog_ok', Ty, so.YNode, B)
 hook_recog_msg = z3.Function('hook_recog_msg', Ty, so.YNode, S)
 hook_recog_hasmsg = z3.Function('hook_recog_hasmsg', Ty, so.YNode, B)
+enum_has = z3.Function('ct_enum_has', Ty, S, B)           # name in Enum class
+hook_new_ok = z3.Function('hook_new_ok', Ty, S, B)        # T(s) does not raise
 hook_sav_ok = z3.Function('hook_sav_ok', Ty, so.YNode, B)
 hook_sav = z3.Function('hook_sav', Ty, so.YNode, so.YNode)
 hook_sav_msg = z3.Function('hook_sav_msg', Ty, so.YNode, S)
@@ -238,6 +240,16 @@ class VParamSeq(V):
         self.t = t
 
 
+class VPyObj(V):
+    """a constructed Python object the model does not look into"""
+    __slots__ = ('what', 't', 'arg')
+
+    def __init__(self, what, t=None, arg=None):
+        self.what = what
+        self.t = t
+        self.arg = arg
+
+
 class VSuper(V):
     __slots__ = ()
 
@@ -271,7 +283,8 @@ SPECB = ('tyset_empty', 'tyset_of', 'in_set', 'card0', 'card1', 'cardmany',
          'reg_types', 'reg_tags', 'recog_ok', 'sav_ok', 'sav_result',
          'E', 'err_msg', 'err_causes', 'image_list', 'reg_len', 'set_remove',
          'image_dict_key', 'image_dict_val', 'dashed', 'is_base_of', 'wf_ty', 'forall_in', 'sav_trace', 'empty_tys', 'prefix_of', 'document_type',
-         'composed_document')
+         'composed_document', 'yielded', 'is_enum_member', 'is_obj_of',
+         'enum_has', 'new_ok')
 
 
 ct_subclass = z3.Function('ct_subclass', Ty, Ty, B)       # issubclass(a, b)
@@ -360,6 +373,19 @@ class TypesPlugin:
             k, v = eng.as_ty(idx.items[0]), eng.as_ty(idx.items[1])
             if k is not None and v is not None:
                 return [(st, VTy(Ty.ty_Dict(k, v)))]
+        if isinstance(base, VTy) and isinstance(idx, (VStr, VNodeValue)):
+            # EnumClass[name]: KeyError unless a member of that name exists
+            a = idx
+            if isinstance(a, VNodeValue):
+                a = eng.models.str_of(eng, a, st)
+            out = []
+            for s2, good in eng.branch(st, enum_has(base.t, a.t)):
+                if good:
+                    out.append((s2, VPyObj('enum', base.t, a.t)))
+                else:
+                    out.append((s2, Raise(VExc('KeyError', (), getattr(
+                        node, 'lineno', 0)))))
+            return out
         if isinstance(base, VRegDict) and isinstance(idx, VStr):
             inn = z3.Contains(base.tags, z3.Unit(idx.t))
             out = []
@@ -486,6 +512,13 @@ class TypesPlugin:
             return [(st, VEmptySet())]
         if name == 'super' and not args:
             return [(st, VSuper())]
+        if name == 'pathlib.Path' and len(args) == 1:
+            a = args[0]
+            if isinstance(a, VNodeValue):
+                a = eng.models.str_of(eng, a, st)
+            eng.assume_note('E-PATH: pathlib.Path(str) does not raise')
+            return [(st, VPyObj('path', None, a.t if isinstance(a, VStr)
+                                else None))]
         if name == 'issubclass':
             t = eng.as_ty(args[0])
             c = args[1]
@@ -647,6 +680,24 @@ class TypesPlugin:
     def apply(self, eng, fv, args, kwargs, st, node):
         if isinstance(fv, VHook):
             return self.call_hook(eng, fv, args, st, node)
+        if isinstance(fv, VTy) and len(args) == 1:
+            # calling a user class with one argument: a string-like class's
+            # constructor -- arbitrary user code, any exception possible
+            eng.assume_note('H-NEW: string-like constructors are '
+                            'deterministic; they may raise anything')
+            a = args[0]
+            if isinstance(a, VNodeValue):
+                a = eng.models.str_of(eng, a, st)
+            if not isinstance(a, VStr):
+                raise Unsupported('class call with a non-str argument', node)
+            out = []
+            for s2, good in eng.branch(st, hook_new_ok(fv.t, a.t)):
+                if good:
+                    out.append((s2, VPyObj('strlike', fv.t, a.t)))
+                else:
+                    out.append((s2, Raise(VExc('UserException', (VStr(fresh(
+                        'usermsg', S)),), getattr(node, 'lineno', 0)))))
+            return out
         return None
 
     def call_hook(self, eng, hv, args, st, node):
@@ -703,6 +754,35 @@ class TypesPlugin:
                 'tag:yaml.org,2002:null'), z3.StringVal(''), so.EMPTY_NODES,
                 so.EMPTY_PAIRS, so.GEN_MARK, so.GEN_MARK)
             return VNodeVal(z3.If(COMPOSED_NONE, empty, COMPOSED))
+        if name == 'yielded':
+            ys = [n[1] for n in st.notes if isinstance(n, tuple)
+                  and n and n[0] == 'yield']
+            v = ys[-1] if ys else None
+            if v is None:
+                raise Unsupported('nothing was yielded on this path', node)
+            return v
+        if name == 'is_enum_member':
+            v = args[0]
+            return VBool(z3.And(z3.BoolVal(isinstance(v, VPyObj) and
+                                           v.what == 'enum'),
+                                v.t == T(args[1]) if isinstance(v, VPyObj)
+                                and v.t is not None else z3.BoolVal(False),
+                                v.arg == args[2].t if isinstance(v, VPyObj)
+                                and v.arg is not None else z3.BoolVal(False)))
+        if name == 'is_obj_of':
+            v = args[0]
+            ok_ = isinstance(v, VPyObj) and v.what == args[1].t.as_string()
+            t_ok = z3.BoolVal(True)
+            if ok_ and v.t is not None and len(args) > 2:
+                t_ok = v.t == T(args[2])
+            a_ok = z3.BoolVal(True)
+            if ok_ and v.arg is not None and len(args) > 3:
+                a_ok = v.arg == args[3].t
+            return VBool(z3.And(z3.BoolVal(ok_), t_ok, a_ok))
+        if name == 'enum_has':
+            return VBool(enum_has(T(args[0]), args[1].t))
+        if name == 'new_ok':
+            return VBool(hook_new_ok(T(args[0]), args[1].t))
         if name == 'sav_trace':
             if st.sav is None:
                 raise Unsupported('sav_trace() outside a function body', node)
